@@ -227,6 +227,11 @@ class CodeGenerator:
         for sym in function.inner_scope:
             var_name = f"var_{sym.name}"
             size = self.context.size_of(sym.typ)
+            if size < 1:
+                raise SemanticError(
+                    f"Local variable {sym.name} must have a positive size",
+                    sym.loc,
+                )
             alignment = size  # TODO: fix this somehow?
             alloc = self.emit(ir.Alloc(var_name, size, alignment))
             variable = self.emit(ir.AddressOf(alloc, var_name))
